@@ -486,4 +486,76 @@ theorem grm_catOK_run {s : State} (ops : List Op) (hC : grm_CatOK s) (hf : grm_f
     rw [Bool.and_eq_true] at hf
     exact ih (grm_catOK_step op hC hf.1) hf.2
 
+/-- the senders of the `createPromoter` messages of a history -/
+def grm_promoterCreators : List Op → List Nat
+  | [] => []
+  | .createPromoter m :: rest => m.creator :: grm_promoterCreators rest
+  | _ :: rest => grm_promoterCreators rest
+
+/-- the promoter-by-address store is written by `createPromoter` only, under the sender's address -/
+theorem grm_exec_byAddr {s s' : State} {op : Op} (h : exec s op = .ok s') :
+    s'.byAddr = s.byAddr ∨ ∃ m, op = .createPromoter m ∧ s'.byAddr = setA s.byAddr (m.creator, m.uid) := by
+  cases op with
+  | time t => simp only [exec, Except.ok.injEq] at h; subst h; exact Or.inl rfl
+  | createPromoter m => obtain ⟨_, _, rfl⟩ := createPromoter_ok h; exact Or.inr ⟨m, rfl, rfl⟩
+  | setConf m => obtain ⟨p, _, _, _, rfl⟩ := setPromoterConf_ok h; exact Or.inl rfl
+  | createCampaign m => obtain ⟨funds, gs, bank, _, _, _, _, _, _, _, _, rfl⟩ := createCampaign_ok h; exact Or.inl rfl
+  | updateCampaign m =>
+    obtain ⟨c, gs, _, _, _, _, _, hcase⟩ := updateCampaign_ok h
+    rcases hcase with ⟨t, bank, _, _, _, rfl⟩ | ⟨_, rfl⟩ <;> exact Or.inl rfl
+  | withdraw m => obtain ⟨c, gs, amount, bank, _, _, _, _, _, _, _, _, rfl⟩ := withdrawFunds_ok h; exact Or.inl rfl
+  | grant m => obtain ⟨c, r, caps, d, _, _, _, _, _, _, _, _, _, rfl⟩ := grantReward_ok h; exact Or.inl rfl
+  | authzGrant a b k l e => obtain ⟨_, _, rfl⟩ := authzGrant_ok h; exact Or.inl rfl
+  | authzRevoke a b k => have := authzRevoke_ok h; subst this; exact Or.inl rfl
+  | putBet b => obtain ⟨_, rfl⟩ := putBet_ok h; exact Or.inl rfl
+  | createSub o => have := createSub_ok h; subst this; exact Or.inl rfl
+  | bankSend f t a => obtain ⟨b, _, _, _, rfl⟩ := bankSend_ok h; exact Or.inl rfl
+
+theorem grm_freshRun_of_nodup (ops : List Op) (s : State)
+    (h0 : ∀ x ∈ s.byAddr, x.1 ∉ grm_promoterCreators ops) (hn : (grm_promoterCreators ops).Nodup) :
+    grm_freshRun s ops = true := by
+  induction ops generalizing s with
+  | nil => rfl
+  | cons op rest ih =>
+    unfold grm_freshRun
+    rw [Bool.and_eq_true]
+    constructor
+    · cases op with
+      | createPromoter m =>
+        show (getA s.byAddr m.creator).isNone = true
+        cases hg : getA s.byAddr m.creator with
+        | none => rfl
+        | some x =>
+          exfalso
+          have hm : x ∈ s.byAddr := getBy_mem _ _ _ _ hg
+          have hk : x.1 = m.creator := getBy_key _ _ _ _ hg
+          apply h0 x hm
+          rw [hk]
+          exact List.mem_cons_self
+      | _ => rfl
+    · -- the rest of the history
+      have hrest : (grm_promoterCreators rest).Nodup ∧
+          (∀ a ∈ grm_promoterCreators rest, a ∈ grm_promoterCreators (op :: rest)) ∧
+          (∀ m, op = .createPromoter m → m.creator ∉ grm_promoterCreators rest) := by
+        cases op with
+        | createPromoter m =>
+          have hn' : (m.creator :: grm_promoterCreators rest).Nodup := hn
+          rw [List.nodup_cons] at hn'
+          exact ⟨hn'.2, fun a ha => List.mem_cons_of_mem _ ha, fun m' e => by cases e; exact hn'.1⟩
+        | _ => exact ⟨hn, fun a ha => ha, fun m' e => by cases e⟩
+      apply ih _ _ hrest.1
+      intro x hx hmem
+      rcases step_eq s op with ⟨s', he, e⟩ | e
+      · rw [e] at hx
+        rcases grm_exec_byAddr he with hb | ⟨m, hop, hb⟩
+        · rw [hb] at hx
+          exact h0 x hx (hrest.2.1 _ hmem)
+        · rw [hb] at hx
+          rcases mem_setBy _ _ _ _ hx with e1 | hx
+          · rw [e1] at hmem
+            exact hrest.2.2 m hop hmem
+          · exact h0 x hx (hrest.2.1 _ hmem)
+      · rw [e] at hx
+        exact h0 x hx (hrest.2.1 _ hmem)
+
 end Sge.Reward
